@@ -236,6 +236,21 @@ def run_case(case):
                     got_order, exp_order, case["kind"], desc()))
             if len(got_boxes) == len(exp_order):
                 classes.append("order-checked")
+        # ---- boxes_flow=None: "returns text based on the position of the bottom left corner of the text box" (from the top
+        # of the page down, then left to right)
+        if la.get("boxes_flow") is None and len(got_boxes) > 1 and gb == exp_boxes:
+            def corner(comp):
+                return (-min(lines[i]["bbox"][1] for i in comp), min(lines[i]["bbox"][0] for i in comp))
+
+            comps = sorted(boxes, key=corner)
+            keys = [corner(c) for c in comps]
+            if len(set(keys)) == len(keys):
+                exp_seq = [sorted(g for i in c for g in lines[i]["ids"]) for c in comps]
+                got_seq = [sorted(g for ln in b[2] for g in ln[1]) for b in sorted(got_boxes, key=lambda b: b[1])]
+                if got_seq != exp_seq:
+                    return Outcome(classes, nt, fail="boxes_flow=None: boxes come in the order %r, by bottom-left corner %r; %s" % (
+                        got_seq, exp_seq, desc()))
+                classes.append("corner-order-checked")
     return Outcome(classes, nt, sample={"kind": case["kind"], "la": {k: str(v) for k, v in la.items()}, "k": case["k"],
                                         "lines": [ln["text"] for ln in lines][:6]})
 
@@ -377,7 +392,7 @@ def stack_cases(draw):
 @st.composite
 def column_cases(draw):
     la = draw(la_params())
-    if la["boxes_flow"] is None:
+    if la["boxes_flow"] is None and draw(st.booleans()):
         la["boxes_flow"] = Fr(1, 2)
     two = draw(st.booleans())
     h, w = Fr(10), Fr(5)
